@@ -1088,6 +1088,14 @@ class Fn:
                 pr = [p_ for p_ in (self.raw.get('promoted') or []) if p_['i'] == int(m_.group(1))]
                 if pr and len(pr[0].get('strs', [])) == 1:
                     return ('str', pr[0]['strs'][0])
+            # a promoted fieldless enum value (`x == Category::Defined` compares with a promoted &Category): the variant
+            if m_:
+                pr = [p_ for p_ in (self.raw.get('promoted') or []) if p_['i'] == int(m_.group(1))]
+                if pr and len(pr[0].get('texts', [])) == 1:
+                    ma = re.match(r'^Adt\(DefId\([^~]*~ \w+\[\w+\]::([\w:]+)\), (\d+), \[\], None, None\)$', pr[0]['texts'][0])
+                    adt = self.prog.adts.get(ma.group(1)) if ma else None
+                    if adt is not None and int(ma.group(2)) < len(adt['variants']) and not adt['variants'][int(ma.group(2))]['fields']:
+                        return ('agg', ma.group(1) + '::' + adt['variants'][int(ma.group(2))]['name'], [])
             # a named `const` item of the crate whose initialiser was dumped: its value
             cf = getattr(self.prog, 'const_fns', {}).get(op.get('named'))
             if cf is not None and cf is not self and depth < 300:
